@@ -13,7 +13,7 @@
                                             Some (Panic k)  panics (POverflow: rustc's overflow check on + - * unary -;
                                                             PExpect: `.expect(..)` on None)
                                             None            a `while` loop used up the [fuel] argument
-   a + b, a - b, a * b, -a  on $Rep        [p_add c t a b] ... = Sample/Rint.v's [arith] at the Rep type t:
+   a + b, a - b, a * b, -a  on $Rep        [p_add c t a b] ... = Sample/Rint.v's [arith] ([add] [sub] [mul] [neg]) at the Rep type t:
                                             overflow-checks on : [chk]  (panic if the exact result does not fit)
                                             overflow-checks off: [wrap] (two's complement)
    a.checked_mul(b)                       [p_checked_mul t a b] : None iff the exact product does not fit (any build)
@@ -51,10 +51,15 @@ Notation "'let!' x ':=' m 'in' k" := (bindM m (fun x => k))
 
 Definition mode_of (c : cfg) : mode := if overflow_checks c then Checked else Wrapping.
 
-Definition p_add (c : cfg) (t : mty) (a b : Z) : M Z := Some (Rint.add (mode_of c) t a b).
-Definition p_sub (c : cfg) (t : mty) (a b : Z) : M Z := Some (Rint.sub (mode_of c) t a b).
-Definition p_mul (c : cfg) (t : mty) (a b : Z) : M Z := Some (Rint.mul (mode_of c) t a b).
-Definition p_neg (c : cfg) (t : mty) (a : Z) : M Z := Some (Rint.neg (mode_of c) t a).
+(* [p_arith c t z] = [Rint.arith (mode_of c) t z] (TypesGenEquiv.p_arith_rint).  The in-range test comes first only
+   to spare the EXECUTED model a 64-bit [mod] per loop iteration when overflow checks are off. *)
+Definition p_arith (c : cfg) (t : mty) (z : Z) : res Z :=
+  if fits t z then Ok z else Rint.arith (mode_of c) t z.
+
+Definition p_add (c : cfg) (t : mty) (a b : Z) : M Z := Some (p_arith c t (a + b)).
+Definition p_sub (c : cfg) (t : mty) (a b : Z) : M Z := Some (p_arith c t (a - b)).
+Definition p_mul (c : cfg) (t : mty) (a b : Z) : M Z := Some (p_arith c t (a * b)).
+Definition p_neg (c : cfg) (t : mty) (a : Z) : M Z := Some (p_arith c t (- a)).
 
 Definition p_checked (t : mty) (z : Z) : option Z := if fits t z then Some z else None.
 Definition p_checked_add (t : mty) (a b : Z) : option Z := p_checked t (a + b).
